@@ -45,7 +45,11 @@ def plan_st(draw, tier):
         # one training call with thousands of rows (the batch tiled; exactly summable rewards stay exact)
         i = draw(st.sampled_from([k for k, op in enumerate(ops_) if op[0] in ("fit", "partial_fit")]))
         ops_[i] = [ops_[i][0] + "_tiled", ops_[i][1], ops_[i][2], ops_[i][3], draw(st.sampled_from([300, 1100, 4200]))]
-    return {"config": cfg, "ops": ops_, "family": h.family, "mq": mq}
+    rdt = None
+    if h.family in ("Eint", "B") and draw(st.integers(0, 3)) == 0:
+        # rewards handed over as a compact array (ratings in int8, clicks as bool): sums must not be formed in that type
+        rdt = draw(st.sampled_from(["int8", "int16", "int32"] if h.family == "Eint" else ["bool", "int8", "uint8"]))
+    return {"config": cfg, "ops": ops_, "family": h.family, "mq": mq, "reward_dtype": rdt}
 
 
 def strategy(tier, ctx):
@@ -205,8 +209,17 @@ def evaluate(plan, ctx):
     trained_since_change = False   # a training call happened, then an arm change
     change_after_training = False
     removed = set()
+    rdt = plan.get("reward_dtype")
+    if rdt:
+        events.append("rewards_as_" + rdt)
     for i, op in enumerate(plan["ops"]):
-        out = ops.apply_op(mab, op)
+        if rdt and op[0] in ("fit", "partial_fit"):
+            out = ops.apply_op(mab, [op[0], op[1], {"array": op[2], "dtype": rdt}, op[3]])
+        elif rdt and op[0] in ("fit_tiled", "partial_fit_tiled"):
+            out = ops.apply_op(mab, [op[0][:-6], list(op[1]) * op[4], {"array": list(op[2]) * op[4], "dtype": rdt},
+                                     None])
+        else:
+            out = ops.apply_op(mab, op)
         if ops.is_exc(out):
             raise Violation("unexpected_exception", "step %d %s raised %r" % (i, op[0], out))
         if op[0].endswith("_tiled"):
